@@ -30,7 +30,7 @@ pub fn props() -> Vec<Prop> {
             id: "C03",
             run: c03,
             tools: None,
-            rule: "after every call of the C01 sweep and random histories, of an invalid-argument sweep (root as source/target, a path inside itself, empty, '..' above root, link parents, type-confused targets) and of hostile-string calls, the hook snapshot of the complete internal state is walked for the 7 clauses of the statement (parent exists / is a real directory / lists the child; listed names exist; entry.path == key; data records == regular files; reachability from the root == all keys; cwd/root absolute; lock not poisoned) and cross-checked through exists()/all_paths()/Display. distinct_nontrivial = distinct (operation, argument classes, outcome class) triples after which the walk ran.",
+            rule: "after every call of the C01 sweep and random histories, of an invalid-argument sweep (root as source/target, a path inside itself, empty, '..' above root, link parents, type-confused targets) and of hostile-string calls, the hook snapshot of the complete internal state is walked for the 7 clauses of the statement (parent exists / is a real directory / lists the child; listed names exist; entry.path == key; data records == regular files; reachability from the root == all keys; cwd/root absolute; lock not poisoned) and cross-checked through exists()/all_paths()/Display; stale write()/append() handles that outlive their file (12 replacement kinds); and at quiescence after every schedule of small concurrent programs (controlled scheduler of C04) and after free-running ones. distinct_nontrivial = distinct (operation, argument classes, outcome class) triples after which the walk ran.",
             assumptions: &["invariants are observed at call boundaries (quiescence), where they are observable"],
             shards_quick: 8,
             shards_thorough: 16,
@@ -848,6 +848,7 @@ fn c03(ctx: &Ctx, rep: &mut Report) {
     stale_handle_scenarios(ctx, rep);
     sweep(ctx, rep, Mode::Invariants, &invalid_ops);
     random_histories(ctx, rep, Mode::Invariants);
+    super::conc::quiescence_integrity(ctx, rep);
 }
 
 #[allow(dead_code)]
